@@ -412,10 +412,10 @@ func main() {
 							case *ast.GoStmt:
 								goStmt.add(where + depth(lits) + ": go")
 							case *ast.SendStmt:
-								goStmt.add(where + depth(lits) + ": send " + src(fset, v.Chan))
+								goStmt.add(where + depth(lits) + ": send " + normSrc(fset, v.Chan, loc))
 							case *ast.UnaryExpr:
 								if v.Op == token.ARROW {
-									goStmt.add(where + depth(lits) + ": recv " + src(fset, v.X))
+									goStmt.add(where + depth(lits) + ": recv " + normSrc(fset, v.X, loc))
 								}
 							case *ast.SelectStmt:
 								goStmt.add(where + depth(lits) + ": select")
@@ -464,7 +464,12 @@ func main() {
 								}
 								if id, ok := v.Fun.(*ast.Ident); ok && id.Name == "make" && len(v.Args) > 0 {
 									if _, ok := v.Args[0].(*ast.ChanType); ok {
-										goStmt.add(where + depth(lits) + ": " + src(fset, v))
+										// the element type does not matter to the protocol, the buffer size does
+										size := "0"
+										if len(v.Args) > 1 {
+											size = normSrc(fset, v.Args[1], loc)
+										}
+										goStmt.add(where + depth(lits) + ": make(chan, " + size + ")")
 									}
 								}
 								if s == "time.After" {
